@@ -114,6 +114,8 @@ fn main() {
             check("DS", x.clone(), x, &mut n);
             let x = Cds::new(k, SecurityAlgorithm::from_int(8), DigestAlgorithm::from_int(2), o.to_vec()).unwrap();
             check("CDS", x.clone(), x, &mut n);
+            let x = Cdnskey::new(k, 3, SecurityAlgorithm::from_int((k & 0xff) as u8), o.to_vec()).unwrap();
+            check("CDNSKEY", x.clone(), x, &mut n);
         }
         let x = Tlsa::new(3.into(), 1.into(), 2.into(), o.to_vec());
         check("TLSA", x.clone(), x, &mut n);
@@ -146,6 +148,37 @@ fn main() {
         let cs = |b: u8| domain::base::charstr::CharStr::from_octets(vec![b; l]).unwrap();
         let x = Hinfo::new(cs(b'c'), cs(b'o'));
         check("HINFO", x.clone(), x, &mut n);
+    }
+    // the 65 535-octet limit of the key record data: the constructors accept a payload exactly when the four fixed octets
+    // and the payload fit, and an accepted value reports the length it writes
+    for len in [65531usize, 65532] {
+        let payload = vec![0x5Au8; len];
+        macro_rules! limit {
+            ($what:expr, $res:expr) => {
+                n += 1;
+                match $res {
+                    Ok(x) => {
+                        if len > 65531 {
+                            fail($what, &len, format!("the constructor accepts a payload of {} octets (record data of {} octets)", len, len + 4));
+                        }
+                        let r = std::panic::catch_unwind(|| (x.rdlen(false), wire(&x).len()));
+                        match r {
+                            Ok((rd, w)) if rd == Some(w as u16) && w == len + 4 => {}
+                            other => fail($what, &len, format!("payload of {} octets: rdlen / octets written = {:?}", len, other.ok())),
+                        }
+                    }
+                    Err(_) => {
+                        if len <= 65531 {
+                            fail($what, &len, format!("the constructor rejects a payload of {} octets (record data of {} octets)", len, len + 4));
+                        }
+                    }
+                }
+            };
+        }
+        limit!("DNSKEY limit", Dnskey::new(257, 3, SecurityAlgorithm::from_int(8), payload.clone()));
+        limit!("CDNSKEY limit", Cdnskey::new(257, 3, SecurityAlgorithm::from_int(8), payload.clone()));
+        limit!("DS limit", Ds::new(1, SecurityAlgorithm::from_int(8), DigestAlgorithm::from_int(2), payload.clone()));
+        limit!("CDS limit", Cds::new(1, SecurityAlgorithm::from_int(8), DigestAlgorithm::from_int(2), payload.clone()));
     }
     println!("OK: {} values compose, parse back, canonicalise and dispatch consistently", n);
 }
